@@ -123,6 +123,10 @@ def run_check(mod, pid, tier, seed, t0, update_baseline):
             path = replay_mod.write(pid, "fixed-finding-returned", fr["witness"], [fr.get("commit", "")])
             violations.append(f"VIOLATION property={pid} replay={path}")
 
+    for g, wit in bundle.get("bounded_witnesses", []):
+        path = replay_mod.write(pid, g, wit, [g])
+        violations.append(f"VIOLATION property={pid} replay={path}")
+
     hashes = bundle.get("hashes", {})
     for g, bad in sorted(failing.items()):
         if g == "sanity":
